@@ -32,7 +32,7 @@ FUNCTIONS = [
 BOUNDS = {
     "quick": "full detector runs: m=1: n<=4 (n=5 with growth factor 2); m=2: n<=7; m=3: n<=8; max_interval_length in "
              "{2m, 2m+1, n, 200}; growth_factor in {1.5, 2}; p in {1,2}; all scores and the threshold scale symbolic",
-    "thorough": "m=1: n<=5; m=2: n<=8; m=3: n<=10; growth_factor in {1.5, 2}; p<=2",
+    "thorough": "m=1: n<=4, n=5 with M in {3,4} or growth factor 2; m=2: n<=8; m=3: n<=10; growth_factor in {1.5, 2}; p<=2",
 }
 STUBS = ["TableLocalScore: user-defined local anomaly score returning one free real per (start, inner start, inner end, end, column)"]
 ASSUMPTIONS = ["threshold_scale >= 0", "greedy equivalence is decided on paths whose candidate scores can be pairwise distinct",
@@ -199,10 +199,11 @@ def jobs(tier, mode="c09"):
         cfgs += [(6, 2, 200, 1.5, 2), (6, 3, 6, 1.5, 1), (7, 3, 200, 1.5, 1), (8, 3, 7, 2.0, 1)]
     else:
         cfgs = []
-        for n in range(2, 6):
+        for n in range(2, 5):
             for M in sorted({2, 3, n, 200}):
                 for gf in (1.5, 2.0):
                     cfgs.append((n, 1, M, gf, 1))
+        cfgs += [(5, 1, 3, 1.5, 1), (5, 1, 200, 2.0, 1), (5, 1, 4, 1.5, 1)]
         cfgs += [(4, 1, 200, 1.5, 2)]
         for m in (2, 3):
             for n in range(2 * m, 9 if m == 2 else 11):
